@@ -530,3 +530,42 @@ def cleanR (x : String) : RExp → Bool
   | .cons _ h t => cleanR x h && cleanR x t
 
 end Martian.Refactor
+
+namespace Martian.Refactor
+
+/-! ### removeInput -/
+
+def dropKeyEnv (q : String) : Env → Env
+  | [] => []
+  | (k, v) :: rest => if k = q then rest else (k, v) :: dropKeyEnv q rest
+
+/-- the node of a call of `x` after input `q` of `x` was removed -/
+def remNodeIn (x q : String) (n : Node) : Node :=
+  if n.callable = x then { n with inputs := dropKeyEnv q n.inputs } else n
+
+def pipeOKRem (x q : String) (c : Callable) : Bool :=
+  (c.isPipe || c.calls.isEmpty)
+  && decide (callIds c).Nodup
+  && c.calls.all (fun k => noStar k.binds)
+  && noStar c.ret
+  && (c.name != x || (graphRefs c).all (fun r => !selfRefTo q r))
+  && c.calls.all (fun k => k.decId != x || decide (k.binds.map (·.name)).Nodup)
+
+/-- **hypothesis of `remove_input_graph`** (decidable): nothing inside `x` refers
+to `self.q` (what the Go analysis establishes before it removes a pipeline
+input); no wildcard bindings (KF1); distinct call ids and binding names. -/
+def RemInOK (x q : String) (p : Program) : Bool :=
+  x != ""
+  && p.callables.all (pipeOKRem x q)
+  && (match p.top with | some t => pipeOKRem x q (topPipe t) | none => true)
+
+/-- the same along a sequence of removals (the closure computed by
+`removeInput` / the cascade of the remove-unused loop) -/
+def RemInsOK : List (String × String) → Program → Bool
+  | [], _ => true
+  | (x, q) :: rest, p => RemInOK x q p && RemInsOK rest (removeInputOne x q p)
+
+def TypeInfo.removeInputs (pairs : List (String × String)) (ti : TypeInfo) : TypeInfo :=
+  pairs.foldl (fun ti xq => ti.removeInput xq.1 xq.2) ti
+
+end Martian.Refactor
